@@ -148,7 +148,7 @@ def _bytesify(t):
     if t[0] == "Store" and t[1] in ("a", "b"):
         return ["Store", t[1], ["Bytes", "41"]]
     if t[0] == "Pop" and t[1][0] == "Load" and t[1][1] in ("a", "b"):
-        return ["Log", t[1]]
+        return ["Pop", ["Concat", t[1], ["Bytes", "41"]]]      # (concat exists at every version)
     return [_bytesify(x) for x in t]
 
 
